@@ -1,4 +1,152 @@
-/- Driver for C06 (stub: not built yet). -/
+/-
+Driver for C06 (forecast accuracy metrics).  Import-free apart from the model.
+Line (tokens after the property id):
+  <via> <metric> <yt> <yp> <yb> <ytr> <sp> <ix> <hw> <mo> <sym> <sqrt> <thr> <left> <right> <rlf>
+  via    f | c                      (function call / class wrapper call)
+  mat    columns separated by ';', values by ','   ('-' = one column of length 0); 'none' where optional
+  ytr    none | <mat> | list:<mat>
+  ix     none | <trainMaxLabel>:<trueMinLabel>
+  hw     none | <ratlist>
+  mo     raw | uni | bad | w:<ratlist>
+  left/right  squared | absolute | bad
+  rlf    mae | mse | mdae | mdse | mape | mdape | mspe | mdspe
+Answer: `raw:<k>:<q,…>` | `avg:<k>:<w,…|->:<q,…>` | `E:<kind>` | `nan`; for via=c `cls=<…> fn=<…>`.
+-/
+import SkVerif.Model.Metrics
+import SkVerif.Drv.Parse
 namespace SkVerif.Drv.C06
-def handle (_toks : List String) : String := "bad-op"
+open SkVerif SkVerif.Metrics SkVerif.Drv
+
+/-- EPS = np.finfo(np.float64).eps = 2^-52 -/
+def EPS : Rat := 1 / 4503599627370496
+
+def showErr : Err → String
+  | .value => "E:value" | .type => "E:type" | .key => "E:key" | .zerodiv => "E:zerodiv"
+  | .attr => "E:attr" | .nan => "nan" | .unsupported => "E:unsupported"
+
+def showOut : Out → String
+  | .raw k qs => s!"raw:{k}:{showRatList qs}"
+  | .avg k none qs => s!"avg:{k}:-:{showRatList qs}"
+  | .avg k (some w) qs => s!"avg:{k}:{showRatList w}:{showRatList qs}"
+
+def showRes : Except Err Out → String
+  | .ok o => showOut o
+  | .error e => showErr e
+
+def parseMat? (s : String) : Option Mat := do
+  let cols ← (s.splitOn ";").mapM parseRatList?
+  match cols with
+  | [] => none
+  | c :: rest => if rest.all (fun d => d.length == c.length) then some cols else none
+
+def parseOMat? (s : String) : Option (Option Mat) :=
+  if s == "none" then some none else (parseMat? s).map some
+
+def parseTrain? (s : String) : Option (Option Train) :=
+  if s == "none" then some none
+  else match s.splitOn ":" with
+    | [m] => (parseMat? m).map (fun m => some (.arr m))
+    | ["list", m] => (parseMat? m).map (fun m => some (.list m))
+    | _ => none
+
+def parseIx? (s : String) : Option (Option (Int × Int)) :=
+  if s == "none" then some none
+  else match s.splitOn ":" with
+    | [a, b] => do
+        let a ← parseInt? a; let b ← parseInt? b
+        pure (some (a, b))
+    | _ => none
+
+def parseHw? (s : String) : Option (Option (List Rat)) :=
+  if s == "none" then some none else (parseRatList? s).map some
+
+def parseMO? (s : String) : Option MO :=
+  match s.splitOn ":" with
+  | ["raw"] => some .raw
+  | ["uni"] => some .uniform
+  | ["bad"] => some .bad
+  | ["w", l] => (parseRatList? l).map MO.weights
+  | _ => none
+
+def parseEF? (s : String) : Option (Option EF) :=
+  if s == "squared" then some (some .squared) else if s == "absolute" then some (some .absolute)
+  else if s == "bad" then some none else none
+
+def parseBase? : String → Option Base
+  | "mae" => some .mae | "mse" => some .mse | "mdae" => some .mdae | "mdse" => some .mdse
+  | "mape" => some .mape | "mdape" => some .mdape | "mspe" => some .mspe | "mdspe" => some .mdspe
+  | _ => none
+
+def parseMetric? : String → Option Metric
+  | "mase" => some .mase | "mdase" => some .mdase | "msse" => some .msse | "mdsse" => some .mdsse
+  | "mae" => some .mae | "mse" => some .mse | "mdae" => some .mdae | "mdse" => some .mdse
+  | "mape" => some .mape | "mdape" => some .mdape | "mspe" => some .mspe | "mdspe" => some .mdspe
+  | "mrae" => some .mrae | "mdrae" => some .mdrae | "gmrae" => some .gmrae | "gmrse" => some .gmrse
+  | "masym" => some .masym | "relloss" => some .relloss
+  | _ => none
+
+structure Args where
+  yt : Mat
+  yp : Mat
+  yb : Option Mat
+  ytr : Option Train
+  sp : Int
+  ix : Option (Int × Int)
+  hw : Option (List Rat)
+  mo : MO
+  sym : Bool
+  sqrt : Bool
+  thr : Rat
+  l : Option EF
+  r : Option EF
+  rlf : Base
+
+/-- the function call `metric(y_true, y_pred, [y_train | y_pred_benchmark], **options)`; `none` = the line lacks a
+required positional argument (harness bug) -/
+def callFn (m : Metric) (a : Args) : Option (Except Err Out) :=
+  match m with
+  | .mae => some (meanAbsoluteError a.yt a.yp a.hw a.mo)
+  | .mse => some (meanSquaredError a.yt a.yp a.hw a.mo a.sqrt)
+  | .mdae => some (medianAbsoluteError a.yt a.yp a.hw a.mo)
+  | .mdse => some (medianSquaredError a.yt a.yp a.hw a.mo a.sqrt)
+  | .mape => some (meanAbsolutePercentageError EPS a.yt a.yp a.hw a.mo a.sym)
+  | .mdape => some (medianAbsolutePercentageError EPS a.yt a.yp a.hw a.mo a.sym)
+  | .mspe => some (meanSquaredPercentageError EPS a.yt a.yp a.hw a.mo a.sqrt a.sym)
+  | .mdspe => some (medianSquaredPercentageError EPS a.yt a.yp a.hw a.mo a.sqrt a.sym)
+  | .masym => some (meanAsymmetricError a.yt a.yp a.hw a.mo a.thr a.l a.r)
+  | .mrae => a.yb.map (fun b => meanRelativeAbsoluteError EPS a.yt a.yp b a.hw a.mo)
+  | .mdrae => a.yb.map (fun b => medianRelativeAbsoluteError EPS a.yt a.yp b a.hw a.mo)
+  | .gmrae => a.yb.map (fun b => geometricMeanRelativeAbsoluteError EPS a.yt a.yp b a.hw a.mo)
+  | .gmrse => a.yb.map (fun b => geometricMeanRelativeSquaredError EPS a.yt a.yp b a.hw a.mo a.sqrt)
+  | .relloss => a.yb.map (fun b => relativeLoss EPS a.yt a.yp b a.rlf a.hw a.mo)
+  | .mase => a.ytr.map (fun t => meanAbsoluteScaledError EPS a.yt a.yp t a.ix a.sp a.hw a.mo)
+  | .mdase => a.ytr.map (fun t => medianAbsoluteScaledError EPS a.yt a.yp t a.ix a.sp a.hw a.mo)
+  | .msse => a.ytr.map (fun t => meanSquaredScaledError EPS a.yt a.yp t a.ix a.sp a.hw a.mo a.sqrt)
+  | .mdsse => a.ytr.map (fun t => medianSquaredScaledError EPS a.yt a.yp t a.ix a.sp a.hw a.mo a.sqrt)
+
+def handle (toks : List String) : String :=
+  match toks with
+  | [via, metric, yt, yp, yb, ytr, sp, ix, hw, mo, sym, sqrt, thr, l, r, rlf] =>
+    match parseMetric? metric, parseMat? yt, parseMat? yp, parseOMat? yb, parseTrain? ytr, parseInt? sp,
+          parseIx? ix, parseHw? hw with
+    | some metric, some yt, some yp, some yb, some ytr, some sp, some ix, some hw =>
+      match parseMO? mo, parseBool? sym, parseBool? sqrt, parseRat? thr, parseEF? l, parseEF? r, parseBase? rlf with
+      | some mo, some sym, some sqrt, some thr, some l, some r, some rlf =>
+        let a : Args := { yt, yp, yb, ytr, sp, ix, hw, mo, sym, sqrt, thr, l, r, rlf }
+        if via == "f" then
+          match callFn metric a with
+          | some res => showRes res
+          | none => "bad-op"
+        else if via == "c" then
+          -- the class is called with two arguments; the function it wraps is called with the same options
+          -- (and defaults for everything the class does not carry)
+          let a' : Args := { a with hw := none, mo := .uniform }
+          match callFn metric a' with
+          | some fn => s!"cls={showRes (classCall EPS metric { sym, sqrt } yt yp)} fn={showRes fn}"
+          | none => "bad-op"
+        else "bad-op"
+      | _, _, _, _, _, _, _ => "bad-op"
+    | _, _, _, _, _, _, _, _ => "bad-op"
+  | _ => "bad-op"
+
 end SkVerif.Drv.C06
